@@ -6,6 +6,24 @@ from ..kernels import run_linear, run_spline, run_bilinear, LIN, SPL, BIL
 LEVEL = 'other'
 
 
+def strategy_target_alignment(chk, lib, rule):
+    """the built-in strategies consume the target in ONE Zip together with the lane views of the data (ndarray pairs the operands by
+    logical index whatever their memory layouts, and checks the shapes) and assign every lane once, from nothing the target held before"""
+    n3 = 0
+    for name, o in (('Linear', run_linear(lib, True, 'inside')), ('CubicSpline', run_spline(lib, 'Yes', 'inside')),
+                    ('Bilinear', run_bilinear(lib, True, 'inside', 'inside'))):
+        evs = [e for e in o.m.events if e[0] == 'zip_for_each'] if o.kind == 'ok' else []
+        ok = len(evs) == 1 and any(k == 'target' for k, _ in evs[0][1]) and any(k == 'lanes' and (lbl.startswith('y[') or lbl.startswith('z[')) for k, lbl in evs[0][1])
+        n3 += 1
+        olds = [a for w in o.m.writes for a in w[1].atoms() if a.endswith('.old')] if o.kind == 'ok' else []
+        chk.ob(rule, "%s: the value written does not depend on what the target held before (it is overwritten, not accumulated into)" % name, not olds,
+               lib.body({'Linear': LIN, 'CubicSpline': SPL, 'Bilinear': BIL}[name])['span'], 'strategy-overwrites-' + name)
+        chk.ob(rule, "%s: the target is an operand of the one Zip that also holds data lanes (%s) and is assigned once per lane (%d writes)" %
+               (name, evs[0][1] if evs else o.exc, len(o.m.writes)), ok and len(o.m.writes) == 1,
+               lib.body({'Linear': LIN, 'CubicSpline': SPL, 'Bilinear': BIL}[name])['span'], 'strategy-zip-' + name)
+    return n3
+
+
 def run(chk):
     lib = load(chk)
     chk.technique = ("path rules over the entry points evaluated on a symbolic shape domain (scenario table: path taken x buffer "
@@ -69,19 +87,7 @@ def run(chk):
                   and repr(t.d['shape']) == '[T*]')
             chk.ob('R14.5', "%s: per-element sub-view = unit slice at the element's own index on every query axis, full range on "
                             "trailing axes, all query axes dropped (shape %s)" % (key, t.d['shape'] if t is not None else None), ok, where, key + '-subview')
-    # R14.3 built-in strategies
-    n3 = 0
-    for name, o in (('Linear', run_linear(lib, True, 'inside')), ('CubicSpline', run_spline(lib, 'Yes', 'inside')),
-                    ('Bilinear', run_bilinear(lib, True, 'inside', 'inside'))):
-        evs = [e for e in o.m.events if e[0] == 'zip_for_each'] if o.kind == 'ok' else []
-        ok = len(evs) == 1 and any(k == 'target' for k, _ in evs[0][1]) and any(k == 'lanes' and (lbl.startswith('y[') or lbl.startswith('z[')) for k, lbl in evs[0][1])
-        n3 += 1
-        olds = [a for w in o.m.writes for a in w[1].atoms() if a.endswith('.old')] if o.kind == 'ok' else []
-        chk.ob('R14.3', "%s: the value written does not depend on what the target held before (it is overwritten, not accumulated into)" % name, not olds,
-               lib.body({'Linear': LIN, 'CubicSpline': SPL, 'Bilinear': BIL}[name])['span'], 'strategy-overwrites-' + name)
-        chk.ob('R14.3', "%s: the target is an operand of the one Zip that also holds data lanes (%s) and is assigned once per lane (%d writes)" %
-               (name, evs[0][1] if evs else o.exc, len(o.m.writes)), ok and len(o.m.writes) == 1,
-               lib.body({'Linear': LIN, 'CubicSpline': SPL, 'Bilinear': BIL}[name])['span'], 'strategy-zip-' + name)
+    strategy_target_alignment(chk, lib, 'R14.3')
     chk.sample({"general path question": "buffer.raw_dim() [B*] == get_buffer_shape(xs.raw_dim()) [Q*, T*]", "fast path question": "[BT*] == [T*]"})
     chk.explanation = ("All entry points with a buffer were evaluated over a symbolic shape domain for every combination of path, "
                        "buffer-shape-equal/unequal, query-shapes-equal/unequal and sink result (%d runs): a wrong shape always ends in a "
